@@ -1233,13 +1233,31 @@ CONTROLS['C15'] = [
       "            raise webob.exc.HTTPBadRequest(msg)\n",
       "        amount = int(amount)\n", 'R15.2'),
     M('c15-reintroduce-F8', 'placement/lib.py',
+      "            first_limit = limit[0]\n"
+      "            try:\n                limit = int(first_limit)\n"
+      "                if limit < 1:\n                    raise ValueError()\n"
+      "            except ValueError:\n"
+      "                raise webob.exc.HTTPBadRequest(\n"
+      "                    \"Invalid query string parameters: Expected 'limit' \"\n"
+      "                    \"parameter to be a positive integer. Got: %s\" %\n"
+      "                    first_limit)\n",
+      "            limit = int(limit[0])\n", 'R15.2'),
+    M('c15-reintroduce-F15', 'placement/lib.py',
+      "            first_limit = limit[0]\n"
+      "            try:\n                limit = int(first_limit)\n"
+      "                if limit < 1:\n                    raise ValueError()\n"
+      "            except ValueError:\n"
+      "                raise webob.exc.HTTPBadRequest(\n"
+      "                    \"Invalid query string parameters: Expected 'limit' \"\n"
+      "                    \"parameter to be a positive integer. Got: %s\" %\n"
+      "                    first_limit)\n",
       "            try:\n                limit = int(limit[0])\n"
       "                if limit < 1:\n                    raise ValueError()\n"
       "            except ValueError:\n"
       "                raise webob.exc.HTTPBadRequest(\n"
       "                    \"Invalid query string parameters: Expected 'limit' \"\n"
       "                    \"parameter to be a positive integer. Got: %s\" % limit[0])\n",
-      "            limit = int(limit[0])\n", 'R15.2'),
+      'R15.13'),
     M('c15-reintroduce-F10', HI,
       "        inventory.capacity\n    except (ValueError, TypeError, OverflowError) as exc:",
       "    except (ValueError, TypeError) as exc:", 'R15.2'),
@@ -2129,4 +2147,73 @@ CONTROLS['C12'] += [
       "    created_new_consumer = False\n    try:\n        consumer = consumer_obj.Consumer(\n",
       "    created_new_consumer = True\n    try:\n        consumer = consumer_obj.Consumer(\n",
       'R12.8'),
+]
+
+# ---- round 7 rules -----------------------------------------------------------
+CONTROLS['C03'] += [
+    M('c03-empty-intersection-means-no-filter', RCX,
+      "        LOG.debug(\"found %d providers after applying required aggregates \"\n"
+      "                  \"filter (%s)\", len(filtered_rps), rg_ctx.member_of)\n"
+      "        if not filtered_rps:\n"
+      "            return None, []\n",
+      "        LOG.debug(\"found %d providers after applying required aggregates \"\n"
+      "                  \"filter (%s)\", len(filtered_rps), rg_ctx.member_of)\n",
+      'R3.13'),
+]
+CONTROLS['C02'] += [
+    M('c02-allocations-prefilled-from-mappings', H + 'allocation_candidate.py',
+      "        rp_resources = collections.defaultdict(lambda: dict(resources={}))\n"
+      "        for rr in ar.resource_requests:\n",
+      "        rp_resources = {u: dict(resources={}) for us in\n"
+      "                        ar.mappings.values() for u in us}\n"
+      "        for rr in ar.resource_requests:\n", 'R2.7'),
+]
+CONTROLS['C01'] += [
+    M('c01-provider-looked-up-under-other-spelling', H + 'allocation.py',
+      "            res[rp_uuid] = rp_obj.ResourceProvider.get_by_uuid(ctx, rp_uuid)\n",
+      "            res[rp_uuid] = rp_obj.ResourceProvider.get_by_uuid(\n"
+      "                ctx, rp_uuid.lower())\n", 'R1.8'),
+]
+CONTROLS['C09'] += [
+    M('c09-listing-drops-rows', RP,
+      "    return [\n        ResourceProvider(context, **rp._mapping) for rp in resource_providers\n    ]\n",
+      "    return [\n        ResourceProvider(context, **rp._mapping) for rp in resource_providers\n"
+      "        if rp.id >= 0\n    ]\n", 'R9.9'),
+]
+CONTROLS['C12'] += [
+    M('c12-compensation-delete-conditional', O + 'consumer.py',
+      "    def delete(self):\n        _delete_consumer(self._context, self)\n",
+      "    def delete(self):\n        if self.generation:\n"
+      "            raise exception.ConcurrentUpdateDetected\n"
+      "        _delete_consumer(self._context, self)\n", 'R12.9'),
+]
+CONTROLS['C15'] += [
+    M('c15-step-size-may-be-zero', 'placement/schemas/inventory.py',
+      "        \"step_size\": {\n            \"type\": \"integer\",\n"
+      "            \"maximum\": db_const.MAX_INT,\n            \"minimum\": 1\n",
+      "        \"step_size\": {\n            \"type\": \"integer\",\n"
+      "            \"maximum\": db_const.MAX_INT,\n            \"minimum\": 0\n",
+      'R15.12'),
+]
+CONTROLS['C11'] += [
+    M('c11-consumer-attributes-own-transaction', H + 'allocation.py',
+      "    def _create_allocations():\n        try:\n"
+      "            # NOTE(melwitt): Group the consumer and allocation database updates\n"
+      "            # in a single transaction so that updates get rolled back\n"
+      "            # automatically in the event of a consumer generation conflict.\n"
+      "            _update_consumers_and_create_allocations(context)\n"
+      "        except Exception:\n"
+      "            with excutils.save_and_reraise_exception():\n"
+      "                if created_new_consumer:\n",
+      "    def _create_allocations():\n        try:\n"
+      "            data_util.update_consumers([consumer], {consumer_uuid: request_attr})\n"
+      "            _update_consumers_and_create_allocations(context)\n"
+      "        except Exception:\n"
+      "            with excutils.save_and_reraise_exception():\n"
+      "                if created_new_consumer:\n", 'R11.11'),
+]
+CONTROLS['C14'] += [
+    M('c14-find-method-returns-unmatched', 'placement/microversion.py',
+      "        if min_version <= version <= max_version:\n            return func\n",
+      "        if min_version <= version:\n            return func\n", 'R14.5'),
 ]
